@@ -301,6 +301,15 @@ pub mod lem {
         assert(x & !m == x - (x & m)) by(bit_vector);
     }
 
+    /// the same idiom with the operands swapped
+    pub broadcast proof fn b_not_and(x: usize, m: usize)
+        requires p2(m as int + 1)
+        ensures (#[trigger] (!m & x)) as int == down(x as int, m as int + 1)
+    {
+        b_and_not(x, m);
+        assert(!m & x == x & !m) by(bit_vector);
+    }
+
     /// `%` computed by the code
     pub broadcast proof fn b_mod_aligned(x: int, a: int)
         ensures ((#[trigger] (x % a)) == 0) <==> aligned(x, a)
@@ -445,7 +454,7 @@ pub mod lem {
 
     /// group used inside the bodies of all extracted modules
     pub broadcast group kernel_arith {
-        b_p2_range, b_p2_lits, b_and_not, b_mod_aligned, b_cast_neg, b_down, b_up,
+        b_p2_range, b_p2_lits, b_and_not, b_not_and, b_mod_aligned, b_cast_neg, b_down, b_up,
         b_up_id, b_down_id, b_down_greatest, b_up_least, b_aligned_16, b_weaken_to,
     }
 
